@@ -256,7 +256,7 @@ func (data stageData) showListing(atomSlice atom.AtomSlice, listFiles, byPackage
 			cursor.Println(item.String())
 		}
 	}
-	return nil
+	return cursor.Close()
 }
 
 
@@ -271,15 +271,23 @@ func (data stageData) writeTarFile(atomSlice atom.AtomSlice) error {
 		if err != nil {
 			return err
 		}
-		defer fileWriter.Close()
 	}
 	tarWriter, deferred := data.makeTarWriter(fileWriter)
 	err = fileList.MakeTar(tarWriter)
-	if err != nil {
-		return nil
+	// The first error met is the one reported: writing the archive, closing the pipe to
+	// the compressor, the compressor itself, closing the output file
+	if closeErr := tarWriter.Close(); err == nil {
+		err = closeErr
 	}
-	tarWriter.Close()
-	return <-deferred
+	if compressorErr := <-deferred; err == nil {
+		err = compressorErr
+	}
+	if tarWriter != io.WriteCloser(fileWriter) {
+		if closeErr := fileWriter.Close(); err == nil {
+			err = closeErr
+		}
+	}
+	return err
 }
 
 
